@@ -188,6 +188,11 @@ def run(chk):
         # to this property's operations
         from .pipeline import run_pipelines
         run_pipelines(chk, "C07")
+    if chk.tier != "quick":
+        # generated workflows (spec/PipelineGen.tla -> real API -> Pipeline.tla):
+        # the steps that belong to this property's operations
+        from .chains import run_chains
+        run_chains(chk, 60, cfg="PipelineGen_l6.cfg", only_prop="C07")
     return chk.finish(
         rule="seeded grammar sums (1..5 base terms, each with 0..3 planted "
              "alpha-variants incl. exact cancellations, explicit/Einstein "
